@@ -46,6 +46,14 @@ def docs(big=True):
         k = 65538
         add("table_first_row_over_budget", "|a" * k + "|\n" + "|-" * k + "|\n|x|\n|y|z|\n\nafter\n")
         add("table_first_row_at_budget", "|a" * 65537 + "|\n" + "|-" * 65537 + "|\n|x|\n|y|z|\n\nafter\n")
+    if big:
+        # single units (one token's content, one attribute value) beyond 1 MiB, full of characters that must be escaped
+        unit = '<&">' + "x" * 60
+        add("fence_1MiB", "```\n" + (unit + "\n") * 16500 + "```\n")
+        add("code_block_1MiB", ("    " + unit + "\n") * 16000)
+        add("codespan_1MiB", "`" + (unit + " ") * 16300 + "`\n")
+        add("text_1MiB", (unit + " ") * 16300 + "\n")
+        add("title_1MiB", '[t](/u \'' + (unit + " ") * 16300 + "')\n")
     for n in (3, 50, 5000):
         add(f"fence_len_{n}", "`" * n + "\nc\n" + "`" * n + "\n")
         add(f"hr_len_{n}", "*" * n + "\n")
